@@ -167,6 +167,8 @@ func asUnsigned(x value) (value, bool) {
 	panic(fmt.Sprintf("cannot convert %T to unsigned", x))
 }
 
+var DebugZero func(string, int64)
+
 // zero returns a new "zero" value of the specified type.
 func zero(t types.Type) value {
 	switch t := t.(type) {
@@ -225,6 +227,12 @@ func zero(t types.Type) value {
 		return (*value)(nil)
 	case *types.Array:
 		a := make(array, t.Len())
+		if DebugZero != nil {
+			DebugZero(t.String(), t.Len())
+		}
+		if t.Len() >= 64 {
+			return a // nil cells = lazy zeros
+		}
 		for i := range a {
 			a[i] = zero(t.Elem())
 		}
@@ -922,6 +930,12 @@ var CapturedOutput *bytes.Buffer
 // callBuiltin interprets a call to builtin fn with arguments args,
 // returning its result.
 func callBuiltin(caller *frame, callpos token.Pos, fn *ssa.Builtin, args []value) value {
+	switch fn.Name() {
+	case "append", "copy":
+		if caller != nil {
+			caller.i.touchArgs(args[:1])
+		}
+	}
 	switch fn.Name() {
 	case "append":
 		if len(args) == 1 {
